@@ -4,6 +4,7 @@ mod corpus;
 mod fw;
 mod gproc;
 mod hval;
+mod mockfs;
 mod props;
 mod qrun;
 mod sim;
